@@ -11,7 +11,7 @@
 (***************************************************************************)
 EXTENDS CopyFrom
 
-Sig(F) == F.kind \o "/" \o (IF F.nullable THEN "ptr" ELSE "val") \o "/" \o (IF F.embed # "" THEN "embed" ELSE "-")
+Sig(F) == F.kind \o "/" \o (IF F.nullable THEN "ptr" ELSE "val") \o "/" \o (IF F.embed # "" THEN (IF F.pmixed THEN "embedmixed" ELSE "embed") ELSE "-")
           \o "/" \o (IF F.oneof # "" THEN "oneof" ELSE "-") \o "/" \o F.cls
           \o (IF F.placeholder THEN "/placeholder" ELSE "")
           \o (IF F.msg # NoMsg /\ SubOf(F).empty THEN "/emptymsg" ELSE "")
@@ -399,7 +399,7 @@ BadFrom(M, tv) ==
         a == AttrOf(tv, F)
     IN IF F.placeholder \/ a.k = "missing" \/ F.kind = "custom" THEN {}
        ELSE IF ~TypedAs(F, a) THEN {F}
-       ELSE IF ~Known(a) THEN {}
+       ELSE IF ~Known(a) \/ F.kind = "prim" THEN {}
        ELSE IF F.kind = "obj" THEN BadFrom(SubOf(F), a)
        ELSE IF F.kind = "primlist" THEN (IF \E j \in DOMAIN a.elems : ~(a.elems[j].k = "prim" /\ a.elems[j].ty = F.tfty) THEN {F} ELSE {})
        ELSE IF F.kind = "primmap" THEN (IF \E key \in DOMAIN a.mels : ~(a.mels[key].k = "prim" /\ a.mels[key].ty = F.tfty) THEN {F} ELSE {})
@@ -481,6 +481,7 @@ UnknownIn(M, tv) ==
           a == AttrOf(tv, F)
       IN IF ~HasFlags(a) \/ F.kind = "custom" THEN {}
          ELSE IF a.unk THEN {V("C08.nounknown", F, "")}
+         ELSE IF F.kind = "prim" \/ a.k # WantKind(F) THEN {}
          ELSE IF F.kind = "obj" THEN UnknownIn(SubOf(F), a)
          ELSE IF F.kind \in {"primlist"} THEN (IF \E j \in DOMAIN a.elems : HasFlags(a.elems[j]) /\ a.elems[j].unk THEN {V("C08.nounknown", F, "element")} ELSE {})
          ELSE IF F.kind \in {"primmap"} THEN (IF \E key \in DOMAIN a.mels : HasFlags(a.mels[key]) /\ a.mels[key].unk THEN {V("C08.nounknown", F, "element")} ELSE {})
